@@ -404,3 +404,8 @@ br('C12', 'seed-registries-cleared-before-reaping', [(RS, "            for child
 ok('reap-loop-over-local-snapshot', (RS, "            for child in itertools.chain(self.children, self.contexts.values()):", "            closing = list(itertools.chain(self.children, self.contexts.values()))\n            for child in closing:"))
 
 br('C19', 'seed-prune-outside-the-lock', (W, "            Worker._active_children = [child for child in Worker._active_children if child.is_alive()]\n            cpy = copy.copy(Worker._active_children)\n", "            cpy = copy.copy(Worker._active_children)\n        cpy = [child for child in cpy if child.is_alive()]\n        with Worker._children_lock:\n            Worker._active_children = cpy\n"), 'prune-not-atomic')
+
+br('C05', 'seed2-deepcopy-memo-outside-loop', [(PT, "        while not self._stop:\n            args = list(copy.deepcopy(self._args))\n            kwargs = copy.deepcopy(self._kwargs)", "        memo = {}\n        while not self._stop:\n            args = list(copy.deepcopy(self._args, memo))\n            kwargs = copy.deepcopy(self._kwargs, memo)")], 'defaults-loop-carried')
+br('C01', 'seed2-exitcode-shortcut-discards-outcome', (PR, "        if self._result is None:\n            #assert not self._comms[0].empty()", "        if self._result is None:\n            if self._child.exitcode:\n                self._result = (False, None)\n                return self._result\n            #assert not self._comms[0].empty()"), 'fallback-without-reading-the-pipe')
+br('C07', 'seed2-next-input-taken-on-live-failure', (PO, "                                logger.exception('Enqueueing failed for current input and worker {} but the worker is still alive - will try next input', worker)\n                                continue", "                                logger.exception('Enqueueing failed for current input and worker {} but the worker is still alive - will try next input', worker)\n                                has_data, from_retries, inp = next_inputs(worker)\n                                continue"), 'input-taken-in-loop')
+br('C10', 'seed2-chunked-send', (RM, "        sock.sendall(data_len + data)", "        sock.sendall(data_len)\n        view = memoryview(data)\n        for offset in range(0, len(view), 1 << 20):\n            sock.send(view[offset:offset + (1 << 20)])"), 'write:send')
